@@ -58,7 +58,9 @@ func (jenny RawTypes) generateSchema(context languages.Context, schema *ast.Sche
 		return imports.AddModule(alias, pkg, module)
 	}
 	jenny.importPkg = func(alias string, pkg string) string {
-		if strings.TrimPrefix(pkg, ".") == schema.Package {
+		// the module being written is not imported; a standard package that has the name of
+		// the schema (`typing`, `enum`) is another module
+		if strings.HasPrefix(pkg, ".") && strings.TrimPrefix(pkg, ".") == schema.Package {
 			return ""
 		}
 
